@@ -149,14 +149,21 @@ def dfs_traces(pool, bound, maxruns, mutant=False):
   return traces, dead
 
 
-def validate(chk, traces, label):
-  batch = [dict(id=i + 1, ev=t) for i, (picks, t) in enumerate(traces)]
-  res, accepted = tracecheck.validate('Subscribe_trace', 'Subscribe_trace.cfg', batch, workers=8)
-  if res.error:
-    raise tlc.TLCError('trace validation failed: %s\n%s' % (res.error, res.out[-3000:]))
-  chk.add_tlc('trace validation (%s)' % label, res, traces=len(batch), accepted=len(accepted))
-  rejected = [i for i in range(1, len(batch) + 1) if i not in accepted]
-  inv = res.invariant_violated
+def validate(chk, traces, label, chunk=20000):
+  """batch trace validation, at most `chunk` traces per TLC invocation (the Json
+  module reads the whole batch into memory)"""
+  rejected, inv, total_acc = [], [], 0
+  for off in range(0, len(traces), chunk):
+    part = traces[off:off + chunk]
+    batch = [dict(id=i + 1, ev=t) for i, (picks, t) in enumerate(part)]
+    res, accepted = tracecheck.validate('Subscribe_trace', 'Subscribe_trace.cfg', batch, workers=8)
+    if res.error:
+      raise tlc.TLCError('trace validation failed: %s\n%s' % (res.error, res.out[-3000:]))
+    chk.add_tlc('trace validation (%s%s)' % (label, '' if len(traces) <= chunk else ', part %d' % (off // chunk + 1)),
+                res, traces=len(batch), accepted=len(accepted))
+    rejected += [off + i for i in range(1, len(batch) + 1) if i not in accepted]
+    inv += res.invariant_violated
+    total_acc += len(accepted)
   return rejected, inv
 
 
